@@ -320,7 +320,7 @@ def _c10(bindir, tier, seed):
 
 @plan("C11")
 def _c11(bindir, tier, seed):
-    return q_jobs(bindir, "C11", tier, seed, seq_enum=False, outcomes=("oep", 6, 9), focus="panic", windows=False, miri=(tier != QUICK))
+    return q_jobs(bindir, "C11", tier, seed, seq_enum=False, outcomes=("oep", 6, 9), focus="panic", miri=(tier != QUICK))
 
 
 @plan("C15")
@@ -330,7 +330,7 @@ def _c15(bindir, tier, seed):
 
 @plan("C16")
 def _c16(bindir, tier, seed):
-    return q_jobs(bindir, "C16", tier, seed, seq_enum=False, outcomes=("oe", 7, 10), focus="error", windows=False)
+    return q_jobs(bindir, "C16", tier, seed, seq_enum=False, outcomes=("oe", 7, 10), focus="error")
 
 
 # ---- C18 ---------------------------------------------------------------------------------------------------
